@@ -60,3 +60,21 @@ Proof.
   replace (Z.min (0 + (0 + 1)) (Z.of_nat (length (a :: arr)))) with 1 by (cbn [length]; lia).
   reflexivity.
 Qed.
+
+From VF Require Import C14.ProofsHeap.
+Lemma heap_main arr cs :
+  model_run (KHeap arr) cs = map MOut (spec_run (iseq (length arr) (fun i => (i, heap_value arr i))) cs).
+Proof.
+  unfold model_run, spec_run, shape_elements. rewrite indexed_length.
+  rewrite <- (iseq_length (length arr) (fun i => (i, heap_value arr i))) at 2.
+  apply (index_cursor (length arr) (heap_value arr)).
+Qed.
+
+Lemma heap_each_perm arr : Permutation (map snd (model_each (KHeap arr))) arr.
+Proof.
+  unfold model_each. rewrite heap_main. unfold shape_elements. rewrite indexed_length.
+  set (s := iseq (length arr) (fun i => (i, heap_value arr i))).
+  assert (E : S (length arr) = S (length s)) by (unfold s; now rewrite iseq_length).
+  rewrite E, spec_each. unfold s, iseq. rewrite map_map. cbn [snd].
+  rewrite <- (map_map Z.of_nat (heap_value arr)). apply heap_enum_perm.
+Qed.
